@@ -230,7 +230,7 @@ def run_shape(spec, tier, mg):
     if res["violations"]:
         confirmed = _run_dtype_lane([c for c in spec["c02"]])
         sigs = {f["signature"] for f in confirmed.get("findings", [])}
-        keep = [v for v in res["violations"] if any("shape" in s for s in sigs)]
+        keep = [v for v in res["violations"] if any("shape" in s or "type" in s for s in sigs)]
         if not keep:
             res["status"] = common.INCONCLUSIVE
             res["notes"].append("gradient-shape findings did not reproduce with float arrays: %s" % [v["summary"] for v in res["violations"]][:2])
